@@ -17,7 +17,7 @@ Seal(kind, named, content, k) ==
   [typ |-> kind, key |-> k, pl |-> pl, sby |-> k, sdom |-> kind, styp |-> kind, spl |-> pl]
 OtherOf(S, x) == CHOOSE y \in S : y # x
 
-Alts == {"none", "payload-content", "payload-named", "key", "sig", "type"}
+Alts == {"none", "payload-content", "payload-named", "key", "sig", "type", "sealed-as-foreign-type"}
 Cases == [made : Kinds, read : Kinds, named : Ids, key : Ids, alt : Alts]
 
 Altered(x) ==
@@ -28,6 +28,8 @@ Altered(x) ==
     [] x.alt = "key" -> [e EXCEPT !.key = o]
     [] x.alt = "sig" -> [e EXCEPT !.sby = o]
     [] x.alt = "type" -> [e EXCEPT !.typ = OtherOf(Kinds, x.made)]
+    (* validly sealed by the same key for the same domain, but declared as a payload type that is not the request's *)
+    [] x.alt = "sealed-as-foreign-type" -> [e EXCEPT !.typ = "foreign", !.styp = "foreign"]
 
 No == [ok |-> FALSE, named |-> "", content |-> ""]
 Read(kind, e) ==
